@@ -28,9 +28,9 @@ import (
 var Check = &ev.Check{
 	ID:    "C20",
 	Level: "exploration",
-	Rule: "histories: 3 base programs (single file; root + included file in a subdirectory; two independent files, one two directories deep) x every edit script of length<=1 (quick) / <=2 (thorough) over 17 edit kinds at every applicable position " +
+	Rule: "histories: 3 base programs (single file; root + included file in a subdirectory; two independent files, one two directories deep) x every edit script of length<=2 over 17 edit kinds at every applicable position " +
 		"(remove service/method, add required/optional field, optional<->required, change field type to i64 / list<i32> / a typedef of the old type, add method/service/struct/const+typedef+enum/file, delete unused struct, delete file, reorder fields/definitions), " +
-		"each committed as HEAD~/HEAD of a scratch git repository. Each history is checked in-process through git.Compare under every map-iteration order (<=1 deviating range execution) in internal/compare and compile, and through the real thriftbreak binary in readable and JSON mode. " +
+		"each committed as HEAD~/HEAD of a scratch git repository. Each history is checked in-process through git.Compare under every map-iteration order (<=1 deviating range execution) in internal/compare and compile, and through the real thriftbreak binary in readable and JSON mode (quick: scripts of 2 edits are judged in-process under the default order only). " +
 		"Oracle: the multiset of diagnostics reduced to (file, quoted names) equals ref/breakref's; exit status non-zero iff non-empty; identical across orders. Cases are distinct (base, script) pairs; non-trivial = scripts containing at least one breaking edit.",
 	Prepare: prepare,
 	Run:     run,
@@ -211,6 +211,7 @@ func run(w *ev.W) {
 	bases := breakref.Bases()
 	stop := false
 	one := func(bi int, from, to breakref.Prog, script []string, breaking bool) {
+		light := w.Quick() && len(script) > 1 // quick: pairs of edits are judged in-process under the default order only
 		if stop || !w.Own() {
 			return
 		}
@@ -266,6 +267,11 @@ func run(w *ev.W) {
 			w.Outcome("agree-clean")
 		} else {
 			w.Outcome("agree-breaking")
+		}
+		if light {
+			w.Count("light_runs(default order, no binary)", 1)
+			w.Done()
+			return
 		}
 		// all map orders
 		distinct := map[string]bool{}
@@ -342,9 +348,6 @@ func run(w *ev.W) {
 			p1 := b.Clone()
 			e1.Apply(&p1)
 			one(bi, b, p1, []string{e1.Kind + " " + e1.Desc}, e1.Breaking)
-			if w.Quick() {
-				continue
-			}
 			for _, e2 := range breakref.Edits(p1) {
 				p2 := p1.Clone()
 				e2.Apply(&p2)
